@@ -73,6 +73,10 @@ func (c *contentValidator) ValidateOwnershipChange(ch *aclrecordproto.AclOwnersh
 	if newOwnerPerms.NoPermissions() {
 		return ErrNoSuchAccount
 	}
+	if newOwnerPerms.IsGuest() {
+		// a guest can only be removed, never re-permissioned (see ValidatePermissionChange)
+		return ErrInsufficientPermissions
+	}
 	newOwnerStatus := c.aclState.accountStates[mapKeyFromPubKey(identity)]
 	if newOwnerStatus.Status != StatusActive ||
 		newOwnerPerms.IsOwner() ||
